@@ -20,7 +20,11 @@ def sh(cmd, cwd=None, timeout=900):
     return p.returncode, p.stdout + p.stderr
 out = os.path.join(ROOT, "seeded", sid)
 os.makedirs(out, exist_ok=True)
-# 1. extract
+# 1. extract (a new non-test source file is part of the change: mark it intent-to-add so the diff shows it)
+rc, fresh_src = sh("git ls-files --others --exclude-standard", cwd=wt)
+for f in fresh_src.split():
+    if f.endswith(".go") and not f.endswith("_test.go"):
+        sh("git add -N -- '%s'" % f, cwd=wt)
 rc, diff = sh("git diff HEAD -- . ':(exclude)*_test.go' ':(exclude)SEED.md'", cwd=wt)
 if not diff.strip():
     print("no source change in", wt); sys.exit(2)
